@@ -133,3 +133,4 @@ package cedar
 //@ frameclean C19 Authorize (PolicySet)IsAuthorized (PolicySet)Get (PolicySet)Map (PolicySet)All (PolicySet)MarshalCedar (PolicySet)MarshalJSON
 //@ frameclean C19 (Policy)MarshalCedar (Policy)MarshalJSON (Policy)Annotations (Policy)Effect (Policy)Position (Policy)AST (PolicyList)MarshalCedar
 //@ noleak C19 (PolicySet)Map (Policy)Annotations
+
